@@ -1,6 +1,11 @@
 """C01 - nesting linter flags exactly the functions whose nesting exceeds the limit.
 
-Generator: control-structure skeletons (vf/render/skeleton.py) rendered to py/ts/js/rs.
+Generator: control-structure skeletons (vf/render/skeleton.py) rendered to py/ts/js/rs. Besides the tree itself a case
+fixes the layout and the placement of a block's own plain statement relative to its control structures (before them |
+after them | none, i.e. a control structure is the ONLY statement of the function body / loop body / else clause /
+handler / case / closure around it). Python's `else:` clauses of for / async for / while / try are branches of their
+statement (kinds forelse / aforelse / whileelse / tryelse): per the docs a statement in them is enclosed by that
+statement exactly like one in the loop body or in an except handler.
 Oracle: reference depth model on the abstract tree (depth = 1 + number of enclosing control
 structures of the deepest statement; an if/elif/else chain is one structure, match/switch one),
 checked for every limit 1..depth+2; plus the wrap-one-level metamorphic relation.
@@ -24,14 +29,19 @@ ID = "C01"
 TECHNIQUE = "Hypothesis-generated control-structure skeletons rendered to 4 languages vs. a reference depth model; exhaustive small forests; wrap-one-level metamorphic relation"
 RULE = (
     "case = list of functions (top-level/method/arrow/function-expression) whose bodies are forests of control "
-    "structures, rendered to every language that has all the kinds used in one of three layouts (one construct per line | one "
-    "physical line per top-level item | leaf-only blocks written without a block), linted with every limit 1..maxdepth+2 "
+    "structures (python: incl. the else clauses of for/async for/while/try as branches), rendered to every language that has "
+    "all the kinds used in one of three layouts (one construct per line | one "
+    "physical line per top-level item | leaf-only blocks written without a block) x three placements of a block's own plain "
+    "statement (before its control structures | after them | none: a control structure is the only statement of its block), "
+    "linted with every limit 1..maxdepth+2 "
     "(--max-depth or nesting.max_nesting_depth). Non-trivial: (>=2 functions or max depth >=3) and for some limit at "
     "least one function on each side of it. Distinct = structural hash of the skeleton (names erased) + language set."
 )
 ASSUMPTIONS = [
     "functions are never nested in another function's body",
-    "every block contains a statement, so the deepest statement of a structure is inside it",
+    "every block without control structures contains a statement, so the deepest statement of a structure is inside it",
+    "a python `else:` (of an if) that holds nothing but an `if` is an elif link (same AST): that block always keeps its own statement",
+    "a loop's / try's `else:` clause is a nested block of that statement (docs: 'each nested block increments the depth')",
     "Rust closures / Python with,try / ts do-while etc. appear only in their own language's sub-domain",
     "in-process CLI (click CliRunner) equals a fresh process; cross-checked on the first cases of every run",
 ]
@@ -83,10 +93,9 @@ def _control(kinds, sub):
         if k == "if":
             opts.append(st.builds(lambda b, e: {"k": "if", "b": b, "else": e and len(b) >= 2},
                                   st.lists(sub, min_size=1, max_size=4), st.booleans()))
-        elif k == "match":
-            opts.append(st.builds(lambda b: {"k": "match", "b": b}, st.lists(sub, min_size=1, max_size=3)))
-        elif k == "try":
-            opts.append(st.builds(lambda b: {"k": "try", "b": b}, st.lists(sub, min_size=2, max_size=3)))
+        elif k in sk.BRANCHES:
+            lo, hi = sk.BRANCHES[k]
+            opts.append(st.builds(lambda b, k=k: {"k": k, "b": b}, st.lists(sub, min_size=lo, max_size=hi)))
         else:
             opts.append(st.builds(lambda b, k=k: {"k": k, "b": [b]}, sub))
     return st.one_of(opts)
@@ -109,14 +118,10 @@ def deep_forest(draw, kinds, lo=2, hi=7):
             pos = draw(st.integers(0, n_br - 1))
             b = [inner if i == pos else draw(small) for i in range(n_br)]
             node = {"k": "if", "b": b, "else": draw(st.booleans()) and n_br >= 2}
-        elif k == "match":
-            n_br = draw(st.integers(1, 3))
+        elif k in sk.BRANCHES:
+            n_br = draw(st.integers(*sk.BRANCHES[k]))
             pos = draw(st.integers(0, n_br - 1))
-            node = {"k": "match", "b": [inner if i == pos else draw(small) for i in range(n_br)]}
-        elif k == "try":
-            n_br = draw(st.integers(2, 3))
-            pos = draw(st.integers(0, n_br - 1))
-            node = {"k": "try", "b": [inner if i == pos else draw(small) for i in range(n_br)]}
+            node = {"k": k, "b": [inner if i == pos else draw(small) for i in range(n_br)]}
         else:
             node = {"k": k, "b": [inner]}
         sib_before = draw(st.lists(_control(kinds, st.just([])), max_size=1))
@@ -140,19 +145,23 @@ def cases(draw):
     via = draw(st.sampled_from(["cli", "config"]))
     wrap = None
     if draw(st.booleans()):
-        wk = [k for k in kinds if k not in ("match", "try")]
+        wk = [k for k in kinds if k not in ("match", "try", "tryelse")]
         wrap = {"func": draw(st.integers(0, nfun - 1)), "kind": draw(st.sampled_from(wk))}
     # the same skeleton written one construct per line, each function squeezed onto one physical line (ts/js/rs), or with
     # leaf-only blocks written without a block (one-line `if c: stmt`, brace-less bodies, bare match arms, expression closures)
-    return {"kind": "skeleton", "funcs": funcs, "via": via, "wrap": wrap, "layout": draw(st.sampled_from(["lines", "lines", "compact", "terse", "terse"]))}
+    layout = draw(st.sampled_from(["lines", "lines", "compact", "terse", "terse"]))
+    # where a block that holds control structures has its own plain statement: before them, after them, or not at all (then a
+    # control structure is the only statement of the function body / loop body / else clause / handler / case around it)
+    leaf = draw(st.sampled_from(["first", "omit", "omit", "last"]))
+    return {"kind": "skeleton", "funcs": funcs, "via": via, "wrap": wrap, "layout": layout, "leaf": leaf}
 
 
 # ------------------------------------------------------------------------------------ running
 
 
-def observe(funcs, lang, limits, via, layout="lines"):
+def observe(funcs, lang, limits, via, layout="lines", leaf="first"):
     """-> {limit: {fname: (depth, line)}}, headers, anomalies"""
-    text, headers = sk.render(funcs, lang, layout)
+    text, headers = sk.render(funcs, lang, layout, leaf)
     fname = "mod" + sk.EXT[lang]
     out = {}
     anomalies = []
@@ -246,7 +255,7 @@ def wrap_deepest(forest, kind):
     def go(fr):
         if not fr or depth(fr) == 0:
             # the leaf statement of this block is a deepest statement: wrap = new control holding a block
-            fr.append({"k": kind, "b": [[]], **({"else": False} if kind == "if" else {})})
+            fr.append({"k": kind, "b": [[] for _ in range(sk.BRANCHES.get(kind, (1, 1))[0])], **({"else": False} if kind == "if" else {})})
             return
         best_n, best_b, best_d = None, None, -1
         for n in fr:
@@ -267,9 +276,9 @@ def check(case) -> Case:
     dmax = max(spec_depths.values())
     limits = list(range(1, dmax + 3))
     failures = []
-    labels = [f"langs={len(langs)}", f"dmax={min(dmax, 8)}", f"via={case['via']}", f"nfun={len(funcs)}", f"layout={case.get('layout', 'lines')}"]
+    labels = [f"langs={len(langs)}", f"dmax={min(dmax, 8)}", f"via={case['via']}", f"nfun={len(funcs)}", f"layout={case.get('layout', 'lines')}", f"leaf={case.get('leaf', 'first')}"]
     for lang in langs:
-        obs, headers, text, anomalies = observe(funcs, lang, limits, case["via"], case.get("layout", "lines"))
+        obs, headers, text, anomalies = observe(funcs, lang, limits, case["via"], case.get("layout", "lines"), case.get("leaf", "first"))
         for a in anomalies:
             failures.append(Failure(f"{lang}|anomaly|{sorted(a)[0]}", {"lang": lang, **a, "source": text}))
         uniform = set()  # functions whose observed depth is the documented one up to the uniform python offset
@@ -304,13 +313,13 @@ def check(case) -> Case:
             wrapped = [dict(f) for f in funcs]
             wi = w["func"] % len(funcs)
             wrapped[wi] = {**tgt, "body": wrap_deepest(tgt["body"], w["kind"])}
-            obs2, headers2, text2, an2 = observe(wrapped, lang, limits + [dmax + 3], case["via"], case.get("layout", "lines"))
+            obs2, headers2, text2, an2 = observe(wrapped, lang, limits + [dmax + 3], case["via"], case.get("layout", "lines"), case.get("leaf", "first"))
             name = tgt["name"]
             d1 = obs.get(1, {}).get(name)
             d2 = obs2.get(1, {}).get(name)
             labels.append("wrap")
             if d1 is not None and d2 is not None and d2[0] != d1[0] + 1:
-                failures.append(Failure(f"{lang}|wrap-not-plus-one|{w['kind']}", {"lang": lang, "func": name, "before": d1[0], "after": d2[0], "source_after": text2}))
+                failures.append(Failure(f"{lang}|wrap-not-plus-one|{w['kind']}", {"lang": lang, "func": name, "before": d1[0], "after": d2[0], "source_before": text, "source_after": text2}))
             if d2 is not None:
                 # verdict of the wrapped function flips at exactly one limit: reported for L < D, not for L >= D
                 D = d2[0]
@@ -331,7 +340,8 @@ def check(case) -> Case:
 COMMON_VARIANTS = [("if", 1, False), ("if", 2, True), ("if", 3, True), ("for", 1, False), ("while", 1, False), ("match", 2, False)]
 # a language's own kinds: (kind, branches, else-flag); try = body + handler (+ finally)
 OWN_VARIANTS = {
-    "py": [("with", 1, False), ("awith", 1, False), ("afor", 1, False), ("try", 2, False), ("try", 3, False)],
+    "py": [("with", 1, False), ("awith", 1, False), ("afor", 1, False), ("try", 2, False), ("try", 3, False),
+           ("forelse", 2, False), ("whileelse", 2, False), ("aforelse", 2, False), ("tryelse", 3, False), ("tryelse", 4, False)],
     "ts": [("dowhile", 1, False), ("forin", 1, False), ("forof", 1, False), ("try", 2, False), ("try", 3, False)],
     "rs": [("loop", 1, False), ("whilelet", 1, False), ("iflet", 1, False), ("closure", 1, False), ("asyncblock", 1, False)],
 }
@@ -378,21 +388,32 @@ def small_forests(max_nodes, variants=None):
     return res
 
 
+# (layout, placement of a block's own statement) variants every matrix forest is written in
+VARIANTS_FULL = (("lines", "first"), ("terse", "first"), ("lines", "omit"), ("lines", "last"))
+VARIANTS_QUICK_OWN = (("lines", "first"), ("lines", "omit"))
+
+
+def _matrix_cells(mine, variants, group=4):
+    cells = []
+    for i in range(0, len(mine), group):
+        chunk = mine[i:i + group]
+        for layout, leaf in variants:
+            cells.append({"kind": "skeleton", "via": "cli", "wrap": None, "layout": layout, "leaf": leaf,
+                          "funcs": [{"name": f"fn_{j}", "container": "top", "body": b} for j, b in enumerate(chunk)]})
+    return cells
+
+
 def run(ctx):
     ctx.explore(cases(), check, max_examples=ctx.n(60, 600))
     # exhaustive sub-space: every forest with <= N control nodes over the common kinds, all 4 languages
     N = 2 if ctx.quick else 3
+    group = 4
     allf = small_forests(N)
     mine = ctx.my_cells(allf)
-    group = 4
-    cells = []
-    for i in range(0, len(mine), group):
-        chunk = mine[i:i + group]
-        for layout in ("lines", "terse"):
-            cells.append({"kind": "skeleton", "via": "cli", "wrap": None, "layout": layout,
-                          "funcs": [{"name": f"fn_{j}", "container": "top", "body": b} for j, b in enumerate(chunk)]})
-    done = ctx.each(cells, check)
-    ctx.stats.extra.setdefault("matrix", {})[f"all forests with <= {N} control nodes over if/if-else/if-elif-else/for/while/match"] = {"cells": len(mine), "done": min(len(mine), done * group // 2), "layouts": ["lines", "terse"]}
+    variants = VARIANTS_FULL
+    done = ctx.each(_matrix_cells(mine, variants, group), check)
+    ctx.stats.extra.setdefault("matrix", {})[f"all forests with <= {N} control nodes over if/if-else/if-elif-else/for/while/match"] = {
+        "cells": len(mine), "done": min(len(mine), done * group // len(variants)), "layout x leaf": ["/".join(v) for v in variants]}
     ctx.stats.extra["exhaustive_subspace_nodes"] = N
     # the same for every language's own alphabet (common kinds + the kinds only that language has); only forests that hold
     # at least one of the language's own kinds are new here. ts cells are rendered to .ts and .js.
@@ -402,16 +423,10 @@ def run(ctx):
         if ctx.quick:  # one half per seed parity, by a hash over the whole list (not by shard-local index)
             allf = [f for f in allf if (int(h(erase(f)), 16) + ctx.seed) % 2 == 0]
         mine = ctx.my_cells(allf)
-        cells = []
-        for i in range(0, len(mine), group):
-            chunk = mine[i:i + group]
-            for layout in (("lines",) if ctx.quick else ("lines", "terse")):
-                cells.append({"kind": "skeleton", "via": "cli", "wrap": None, "layout": layout,
-                              "funcs": [{"name": f"fn_{j}", "container": "top", "body": b} for j, b in enumerate(chunk)]})
-        done = ctx.each(cells, check)
-        nl = 1 if ctx.quick else 2
+        variants = VARIANTS_QUICK_OWN if ctx.quick else VARIANTS_FULL
+        done = ctx.each(_matrix_cells(mine, variants, group), check)
         ctx.stats.extra["matrix"][f"{lang}: all forests with <= 2 control nodes over the common kinds + {'/'.join(sorted(own))} that use one of the latter" + (" (half by seed parity)" if ctx.quick else "")] = {
-            "cells": len(mine), "done": min(len(mine), done * group // nl)}
+            "cells": len(mine), "done": min(len(mine), done * group // len(variants)), "layout x leaf": ["/".join(v) for v in variants]}
 
 
 def replay(case) -> Case:
